@@ -72,6 +72,7 @@ type sut interface {
 	New()
 	Do(op, e string, args []int) []int // may panic
 	Read() state
+	Hold(e string) func() []int // fire, keeping the slice that was handed out
 }
 
 // ---- raw handlerStore -----------------------------------------------------
@@ -120,6 +121,10 @@ func idsF(fs []*func()) []int {
 	}
 	return out
 }
+func (r *rawHS) Hold(e string) func() []int {
+	h := r.s.FireHold()
+	return func() []int { return ids(h.Ptrs()) }
+}
 func (r *rawHS) Read() state {
 	s, o, c := r.s.List()
 	return state{lists{"_": idsF(s)}, lists{"_": idsF(o)}, lists{"_": idsF(c)}}
@@ -152,6 +157,10 @@ func (r *rawEHS) Do(op, e string, a []int) []int {
 		return ids(r.s.Fire(e))
 	}
 	return []int{}
+}
+func (r *rawEHS) Hold(e string) func() []int {
+	h := r.s.FireHold(e)
+	return func() []int { return ids(h.Ptrs()) }
 }
 func (r *rawEHS) Read() state {
 	st := state{lists{}, lists{}, lists{}}
@@ -193,6 +202,10 @@ func (r *apiConn) Do(op, e string, a []int) []int {
 	}
 	return []int{}
 }
+func (r *apiConn) Hold(e string) func() []int {
+	h := sio.VerifNamespaceFireConnectionHold(r.nsp)
+	return func() []int { return ids(h.Ptrs()) }
+}
 func (r *apiConn) Read() state {
 	s, o, c := sio.VerifNamespaceConnectionHandlers(r.nsp)
 	return state{lists{"_": ids(s)}, lists{"_": ids(o)}, lists{"_": ids(c)}}
@@ -233,6 +246,10 @@ func (r *apiEvent) Do(op, e string, a []int) []int {
 		return ids(r.s.Fire(e))
 	}
 	return []int{}
+}
+func (r *apiEvent) Hold(e string) func() []int {
+	h := r.s.FireHold(e)
+	return func() []int { return ids(h.Ptrs()) }
 }
 func (r *apiEvent) Read() state {
 	st := state{lists{}, lists{}, lists{}}
@@ -413,10 +430,24 @@ func (r *runner) sequences(s sut, rng *rand.Rand, n, length int) {
 	ops := opsFor(s)
 	for i := 0; i < n; i++ {
 		s.New()
+		var held []heldFire
 		for j := 0; j < length; j++ {
 			o := ops[rng.Intn(len(ops))]
 			st := s.Read()
 			if (o.Op == "on" && len(st.On[o.E]) >= 5) || (o.Op == "once" && len(st.Once[o.E]) >= 5) || (o.Op == "onsub" && len(st.Subs[o.E]) >= 4) {
+				continue
+			}
+			if o.Op == "fire" && j%2 == 0 {
+				// an occurrence that is still iterating its handlers while the registry changes
+				pre := s.Read()
+				get := s.Hold(o.E)
+				snap := get()
+				want := append(append(append([]int{}, pre.Subs[o.E]...), pre.On[o.E]...), pre.Once[o.E]...)
+				if fmt.Sprint(snap) != fmt.Sprint(want) {
+					r.res.Violation("fire-result-wrong", fmt.Sprintf("%s: fire(%s) in state %v returned %v", s.Name(), o.E, pre, snap), i, nil)
+				}
+				held = append(held, heldFire{get, snap, fmt.Sprintf("%s fire(%s) #%d", s.Name(), o.E, j)})
+				r.res.Case(fmt.Sprint("hold", s.Name(), pre, o), len(want) > 0)
 				continue
 			}
 			r.step(s, o, true)
@@ -424,8 +455,58 @@ func (r *runner) sequences(s sut, rng *rand.Rand, n, length int) {
 				r.hung = false
 				break
 			}
+			for _, h := range held {
+				if now := h.get(); fmt.Sprint(now) != fmt.Sprint(h.snap) {
+					r.res.Violation("fire-result-mutated",
+						fmt.Sprintf("the handler list handed to an occurrence (%s) was %v and became %v after a later %s(%s,%v): an occurrence still iterating would run the wrong handlers",
+							h.desc, h.snap, now, o.Op, o.E, o.Args), i, nil)
+					h.snap = now
+				}
+			}
 		}
 	}
+}
+
+// overlap: an occurrence keeps iterating the list it was handed while later
+// registrations and occurrences happen, for every size of the On list (slice capacities).
+func (r *runner) overlap(s sut) {
+	for _, e := range s.Events() {
+		for n := 0; n <= 17; n++ {
+			for m := 1; m <= 2; m++ {
+				s.New()
+				for i := 0; i < n; i++ {
+					s.Do("on", e, []int{1 + i%3})
+				}
+				for i := 0; i < m; i++ {
+					s.Do("once", e, []int{1 + (i+1)%3})
+				}
+				pre := s.Read()
+				get := s.Hold(e)
+				snap := get()
+				want := append(append(append([]int{}, pre.Subs[e]...), pre.On[e]...), pre.Once[e]...)
+				if fmt.Sprint(snap) != fmt.Sprint(want) {
+					r.res.Violation("fire-result-wrong", fmt.Sprintf("%s: fire(%s) in state %v returned %v", s.Name(), e, pre, snap), n, nil)
+				}
+				follow := []op{{"once", e, []int{3}}, {"fire", e, []int{}}, {"on", e, []int{2}}, {"once", e, []int{1}}, {"fire", e, []int{}}, {"off", e, []int{1}}, {"on", e, []int{3}}}
+				for _, o := range follow {
+					s.Do(o.Op, o.E, o.Args)
+					if now := get(); fmt.Sprint(now) != fmt.Sprint(snap) {
+						r.res.Violation("fire-result-mutated",
+							fmt.Sprintf("%s: the handler list handed to an occurrence of %q (%d On + %d Once handlers) was %v and became %v after a later %s(%v): an occurrence still iterating runs the wrong handlers",
+								s.Name(), e, n, m, snap, now, o.Op, o.Args), n, nil)
+						break
+					}
+				}
+				r.res.Case(fmt.Sprint("overlap", s.Name(), e, n, m), true)
+			}
+		}
+	}
+}
+
+type heldFire struct {
+	get  func() []int
+	snap []int
+	desc string
 }
 
 // ---------------------------------------------------------------------------
@@ -615,6 +696,9 @@ func TestC18(t *testing.T) {
 	rng := rand.New(rand.NewSource(vres.Seed()))
 	for _, s := range suts {
 		r.sequences(s, rng, vres.Pick(150, 3000), 14)
+	}
+	for _, s := range suts {
+		r.overlap(s)
 	}
 	res.Count("records_after_sequences", r.n)
 
